@@ -5,8 +5,8 @@ PID = "C07"
 LEVEL = cc.LEVEL
 BUILDS = cc.BUILDS
 CASE_TIMEOUT = cc.CASE_TIMEOUT
-LEAN_MODULES = []
-THEOREMS = []
+LEAN_MODULES = ["AsynqModel.Theorems.C07"]
+THEOREMS = ["AsynqModel.Core." + n for n in ['C07_saverestore', 'C07_saverestore_task', 'C07_exited_paused']]
 MIX = [('yield_ctx',5),('full',3)]
 RULE = ("grammar-generated task programs (profiles %s; trees and DAGs of tasks, 1-3 batch kinds with priority overrides "
         "and raising flushes, nested yield structures, errors, try/except, synchronous re-entry, contexts) interpreted on "
